@@ -1036,9 +1036,15 @@ class mulgrid(object):
                         col2.neighbour.add(c)
                         c.neighbour.add(col2)
                     del col.node[i[3]]
+                    n3.column.remove(col)
                     col.centre = col.centroid
                     self.add_column(col2)
+                    # connections moved to col2 are now keyed by its name:
+                    self.connection = dict([(tuple([c.name for c in con.column]), con)
+                                            for con in self.connectionlist])
                     self.add_connection(connection([col, col2]))
+                    col.neighbour.add(col2)
+                    col2.neighbour.add(col)
                     self.setup_block_name_index()
                     self.setup_block_connection_name_index()
                     return True
